@@ -1281,6 +1281,9 @@ func (e *EvalEnv) call(x *ast.CallExpr) (Val, error) {
 		// after a frame condition had already been evaluated, so that assumed and checked frames range over the same set)
 		regions := map[string]bool{}
 		for r := range e.X.regionSort {
+			if strings.HasPrefix(r, "G:") {
+				continue // ghost state (call counter) is not memory: frames do not speak about it
+			}
 			regions[r] = true
 		}
 		if e.X.frameEvals == 0 || len(e.X.regionSort) < e.X.minRegionsAtFrame {
